@@ -366,6 +366,12 @@ _SCOPES = {
     "C19": (("mofun.rough_uff", None),),
     "C20": (("mofun.cli.mofun_cli", None),),
 }
+# results depend on the arguments of THIS call only: no memo at module level, nothing cached on the argument objects (multi-step histories: search, edit in place, search again)
+for _id in ("C01", "C02", "C03", "C05", "C06", "C07", "C08", "C10", "C11", "C12", "C13", "C15", "C16", "C17", "C18", "C19"):
+    PROPERTIES[_id]["rules"].append((A.A22_no_module_state, "%s no function of the library keeps module-level state between calls (memo tables make a result depend on earlier calls)" % _id))
+for _id in ("C02", "C03", "C05", "C08"):
+    PROPERTIES[_id]["rules"].append((A.A1_inputs_not_mutated, "%s the search leaves the structure and pattern it is given untouched (nothing is cached on, or wrapped in, the caller's objects)" % _id,
+                                     {"only": ["find_pattern_in_structure"]}))
 for _id, _sc in _SCOPES.items():
     PROPERTIES[_id]["rules"].append((G.G11_loop_exit_discipline, "%s a guard clause about the current item skips it (`continue`), it does not end an accumulating loop" % _id, {"scope": _sc}))
     PROPERTIES[_id]["rules"].append((G.G13_size_bound_agreement, "%s an index filter agrees with the size of the table it indexes (no off-by-one between size and bound)" % _id, {"scope": _sc}))
@@ -386,6 +392,7 @@ for _id, _sc in _SCOPES.items():
     PROPERTIES[_id]["rules"].append((G.G28_alias_sibling_update, "%s sibling branches update an array stored in an object consistently (in place vs re-binding)" % _id, {"scope": _sc}))
     PROPERTIES[_id]["rules"].append((G.G29_parallel_filter_in_loop, "%s a list filtered through a parallel list inside a loop keeps the partner in step" % _id, {"scope": _sc}))
     PROPERTIES[_id]["rules"].append((G.G30_nonzero_rows_with_multiplicity, "%s indices taken from one axis of a 2-D hit matrix are de-duplicated before they become items" % _id, {"scope": _sc}))
+    PROPERTIES[_id]["rules"].append((G.G31_reorder_one_of_parallel_lists, "%s lists filled in parallel are re-ordered together or not at all" % _id, {"scope": _sc}))
     PROPERTIES[_id]["rules"].append((G.G12_set_order, "%s a sequence made from a set is not used as an ordered selector" % _id, {"scope": _sc}))
     PROPERTIES[_id]["rules"].append((G.G10_defined_before_use, "%s every read of a local is reached by an assignment (no statement moved above the one that defines its input)" % _id, {"scope": _sc}))
     PROPERTIES[_id]["rules"].append((G.G7_api_contract_pitfalls, "%s API contracts: insertion points as indices, span versus length, memoised functions / caching properties, stored tables tested by truth value" % _id, {"scope": _sc}))
@@ -423,19 +430,24 @@ _EXTRA = {
     "C06": [(C.C_idx_replace, "C06.2 index tuples, positions and rotations of the matches stay parallel, so the terms of an inserted fragment are attached to the atoms of the same match"),
             (A2.A11_pop_deletes, "C06 the final deletion of the replaced atoms re-indexes the surviving terms with correctly normalised indices"),
             (A2.A10_descending_contract, "C06 terms of removed atoms are dropped and the others re-indexed under the callers' descending order")],
-    "C08": [(C.C_fractional_wrap, "C08 triclinic wrap in the row convention (a wrong basis shifts inserted atoms by non-lattice vectors, so the reverse search does not find the site)"),
+    "C08": [(A2.A12_extend_bookkeeping, "C08 atoms common to both patterns stay the structure's atoms: the identity map only transfers type and extra fields, never position, charge or group"),
+            (C.C_fractional_wrap, "C08 triclinic wrap in the row convention (a wrong basis shifts inserted atoms by non-lattice vectors, so the reverse search does not find the site)"),
             (C.C_axis_windows, "C08 the reverse search finds the replaced site again on triclinic cells: plane normals, widths, norms and inward signs are paired per axis"),
             (C.C_quaternion_layout, "C08 reversibility needs every pose to be found again: roll sense and roll branch test"),
             (C.C_roll_every_return, "C08 every return of the roll helper is the rotation built from the measured angle (no tolerance shortcut to the identity)"),
             (A2.A14b_fallback_axis, "C08 reversibility needs every pose to be found again: antiparallel detection, angle test, fallback axis"),
             (C.C_roll_gate, "C08 the roll about the matched axis is applied to every match with more than two atoms"),
             (C.C_wrap_modulus, "C08 wraps are lattice translations (period 1 in fractional coordinates)")],
-    "C09": [(E.E_override_both_directions, "C09 extending: exactly the superseded existing terms are removed (forward and reverse), every other term survives")],
+    "C13": [(A2.A19_attribute_discipline, "C13 the reader hands back a plain Atoms object: nothing is stored on it that the constructor, copy and subset operations do not know (state smuggled from reader to writer outside the object's fields)",
+             {"funcs": ["Atoms.load_lmpdat", "Atoms.save_lmpdat", "Atoms.load", "Atoms.save"]})],
+    "C09": [(A2.A19_attribute_discipline, "C09 every attribute used on an Atoms value is one the class defines (an attribute attached from outside is lost by copy / subset / extend)", {"modules": ("mofun.atoms", "mofun.mofun", "mofun.rough_uff", "mofun.detect_bonds", "mofun.helpers")}),
+            (E.E_override_both_directions, "C09 extending: exactly the superseded existing terms are removed (forward and reverse), every other term survives")],
     "C12": [(C.C_axis_diag, "C12 np.diag(cell) is the box only under the exact orthorhombic test")],
     "C15": [(E.E_dispatch, "C15 the CIF reader / writer is reached through the dispatcher: explicit type beats extension, handles are not closed, file objects need a type"),
             (C.C_wrap_modulus, "C15 reading wraps fractional coordinates with period exactly 1"),
             (C.C_axis_diag, "C15 Cartesian <-> fractional handling never uses the cell diagonal as the box without the orthorhombic test")],
-    "C17": [(C.C_axis_diag, "C17 periodic images come from the lattice rows; the cell diagonal is never used as the box without the orthorhombic test")],
+    "C17": [(C.C_axis_diag, "C17 periodic images come from the lattice rows; the cell diagonal is never used as the box without the orthorhombic test"),
+            (C.C_fractional_wrap, "C17 any wrap of the atoms before the image search goes through positions . inverse(cell) (lattice vectors are rows)", {"modules": ("mofun.detect_bonds",), "min_sites": 0})],
     "C16": [(E.E_dispatch, "C16 the CML reader is reached through the dispatcher: explicit type beats extension, file objects need a type")],
     "C18": [(D2.D5_torsion_table, "C18.5 torsion case analysis agrees with the documented UFF case table on every abstract type combination"),
             (D2.D6_bond_order_precedence, "C18.4 user bond-order rules take precedence over every built-in guess and are forwarded by every parameter function"),
@@ -443,7 +455,8 @@ _EXTRA = {
             (D2.D9_type_string_parsing, "C18.5 element and hybridisation character are derived correctly from every one of the 221 type labels")],
     "C19": [(D2.D5_torsion_table, "C19 'dihedrals for which no torsion is defined are dropped' rests on dihedral_params returning None exactly for the documented cases"),
             (D2.D6_bond_order_precedence, "C19 term parameters honour the user bond-order rules")],
-    "C20": [(E.E_dispatch, "C20 the command line loads and saves through Atoms.load / Atoms.save: the file type of every path argument is what follows the LAST dot, explicit type beats extension"),
+    "C20": [(A.A1_inputs_not_mutated, "C20 'with only a find pattern ... writes the structure unmodified': the search does not modify the structure it is given", {"only": ["find_pattern_in_structure"]}),
+            (E.E_dispatch, "C20 the command line loads and saves through Atoms.load / Atoms.save: the file type of every path argument is what follows the LAST dot, explicit type beats extension"),
             (A2.A18d_option_decisions, "C20 every optional stage runs exactly when its option is given; find/replace decision over the four combinations of -f and -r; minimum-image factor 2*mic/length; flag defaults"),
             (A2.A18c_option_types, "C20 every option delivers the kind of value its use needs; command-line defaults equal the API defaults; library formats go to the library loader/saver"),
             (A2.A18b_pair_params_parallel, "C20 --pp: one pair coefficient and one label per atom type, in type order"),
